@@ -22,11 +22,18 @@ open AsynqModel.Core (Val)
 
 /-- exception identities -/
 inductive Err where
-  | u (n : Nat)      -- pre-made user exception instance n
+  | u (n : Nat)      -- pre-made user exception instance n (an `Exception`)
+  | b (n : Nat)      -- pre-made user exception instance n of a class derived from BaseException ONLY (not an `Exception`)
   | typeerr          -- TypeError of `unwrap` ("Cannot unwrap") / `resolve_awaitables` ("Unknown structured awaitable type")
   | syncRefused      -- RuntimeError "asyncio mode does not support synchronous calls"
   | other            -- anything else (only produced on ill-formed programs, see `bodyA`)
   deriving Repr, DecidableEq, Inhabited
+
+/-- `not isinstance(e, Exception)`: neither `except Exception` in a body nor `except Exception as exc` in the loop of
+    `convert_asynq_to_async` catches it -/
+def Err.isBase : Err → Bool
+  | .b _ => true
+  | _ => false
 
 /-- how a computation ends -/
 inductive Out where
@@ -43,6 +50,21 @@ inductive Kind where
   | proxy    -- @async_proxy() function returning `inner.asynq(args)` of a `gen` function (AsyncProxyDecorator)
   | plain    -- @asynq() on a function that is not a generator (`needs_wrapper = False`, `_fn_wrapper`)
   deriving Repr, DecidableEq, Inhabited
+
+/-- The kind of Python object a body returns for `ret tag` / `res tag` (harness: `VALUE_KINDS[tag / 10]` in checks/c15.py).
+    Every one of them is the term `node tag env` to the model: neither engine may look into a returned value - an exception
+    instance RETURNED by a task is a value like any other, a falsy / unhashable / awaitable / future-like object too.
+    The theorems quantify over every tag, hence over every kind. -/
+inductive VKind where
+  | plain | exc | baseexc | cancelled | stopiter | falsy | len0 | boolraises | eqhostile | tupsub | lstsub | dictsub
+  | awaitable | constfuture
+  deriving Repr, DecidableEq, Inhabited
+
+def valueKind (tag : Nat) : VKind :=
+  match tag / 10 with
+  | 1 => .exc | 2 => .baseexc | 3 => .cancelled | 4 => .stopiter | 5 => .falsy | 6 => .len0 | 7 => .boolraises
+  | 8 => .eqhostile | 9 => .tupsub | 10 => .lstsub | 11 => .dictsub | 12 => .awaitable | 13 => .constfuture
+  | _ => .plain
 
 /-- `inspect.isgeneratorfunction(fn)` of the function that finally runs the body -/
 def Kind.isGen : Kind → Bool
@@ -61,8 +83,9 @@ inductive Prog where
   | ret (tag : Nat)                              -- return node(tag, everything received so far)
   | res (tag : Nat)                              -- the same through asynq.result(...)
   | raise (e : Nat)                              -- raise user error e
+  | raiseB (e : Nat)                             -- raise user error e of the BaseException-only class
   | reraise                                      -- re-raise the exception caught last (user error 0 if none)
-  | yld (y : Ys) (k h : Prog)                    -- try: v = yield y / except Exception: h / else: k
+  | yld (hb : Bool) (y : Ys) (k h : Prog)        -- try: v = yield y / except Exception (hb: except BaseException): h / else: k
   | sync (c : Call) (child : Prog) (k h : Prog)  -- try: v = child_fn(args) (plain synchronous call) / except Exception: h / else: k
 /-- a yielded structure -/
 inductive Ys where
@@ -84,7 +107,8 @@ inductive Ev where
   | start (t : Nat) (mode : Bool)                 -- body of task t starts; is_asyncio_mode() seen there
   | run (t i : Nat) (dc mode : Bool) (recv : Out) -- t resumed for the i-th time with `recv`; dc = every task yielded
                                                   --   together at that yield had finished; is_asyncio_mode() seen
-  | fin (t : Nat) (o : Out)                       -- body of t finished (returned / result() / raised)
+  | fin (t : Nat) (o : Out)                       -- task t ended: its body returned / called result() / raised, or an
+                                                  --   error its handler does not catch arrived at its yield
   | afn (t : Nat)                                 -- the explicit asyncio_fn of call site t was entered
   | syncX (t : Nat) (o : Out)                     -- a plain synchronous call made inside t came back with o
   | bad (s : String)                              -- an observation the vocabulary cannot express (never produced by the model)
@@ -177,10 +201,13 @@ def bodyR (gen : Bool) (t : Nat) (env : List Val) (caught : Option Err) (i : Nat
   | .raise e, s =>        -- `except BaseException: self._accept_error(error)`
     let o := Out.err (.u e)
     (o, s.emit (.fin t o))
+  | .raiseB e, s =>       -- the same branch: `_continue` catches BaseException
+    let o := Out.err (.b e)
+    (o, s.emit (.fin t o))
   | .reraise, s =>
     let o := Out.err (caught.getD (.u 0))
     (o, s.emit (.fin t o))
-  | .yld y k h, s =>
+  | .yld hb y k h, s =>
     if !gen then
       let o := Out.err .other     -- a function that is not a generator cannot yield (ill-formed program)
       (o, s.emit (.fin t o))
@@ -189,7 +216,13 @@ def bodyR (gen : Bool) (t : Nat) (env : List Val) (caught : Option Err) (i : Nat
       let d := s1.dc y
       match r with
       | .ok v => bodyR gen t (env ++ [v]) caught (i + 1) k (s1.emit (.run t (i + 1) d s1.mode (.ok v)))   -- generator.send(value)
-      | .err e => bodyR gen t env (some e) (i + 1) h (s1.emit (.run t (i + 1) d s1.mode (.err e)))       -- generator.throw(error)
+      | .err e =>
+        -- generator.throw(error): EVERY error of a dependency is thrown into the generator at the yield; the body's handler
+        -- catches it unless it is BaseException-only and the handler is `except Exception` - then the task fails with it
+        if e.isBase && !hb then
+          let o := Out.err e
+          (o, s1.emit (.fin t o))
+        else bodyR gen t env (some e) (i + 1) h (s1.emit (.run t (i + 1) d s1.mode (.err e)))
       | .esc v => (.esc v, s1)    -- never happens (see `Proofs.ysR_noEsc`): a task turns AsyncTaskResult into its value
   | .sync c child k h, s =>
     -- AsyncDecorator.__call__: `if is_asyncio_mode(): raise RuntimeError(...)  else: return self._call_pure(args, kwargs).value()`
@@ -199,7 +232,11 @@ def bodyR (gen : Bool) (t : Nat) (env : List Val) (caught : Option Err) (i : Nat
     let s2 := s1.emit (.syncX t r)
     match r with
     | .ok v => bodyR gen t (env ++ [v]) caught i k s2
-    | .err e => bodyR gen t env (some e) i h s2
+    | .err e =>
+      if e.isBase then            -- the handler of a synchronous call is `except Exception`
+        let o := Out.err e
+        (o, s2.emit (.fin t o))
+      else bodyR gen t env (some e) i h s2
     | .esc v => (.esc v, s2)
 /-- evaluate every future of the structure, then `unwrap` it -/
 def ysR : Ys → St → Out × St
@@ -261,10 +298,13 @@ def bodyA (gen : Bool) (t : Nat) (env : List Val) (caught : Option Err) (i : Nat
   | .raise e, s =>
     let o := Out.err (.u e)
     (o, s.emit (.fin t o))
+  | .raiseB e, s =>
+    let o := Out.err (.b e)
+    (o, s.emit (.fin t o))
   | .reraise, s =>
     let o := Out.err (caught.getD (.u 0))
     (o, s.emit (.fin t o))
-  | .yld y k h, s =>
+  | .yld _hb y k h, s =>
     if !gen then
       let o := Out.err .other
       (o, s.emit (.fin t o))
@@ -273,7 +313,14 @@ def bodyA (gen : Bool) (t : Nat) (env : List Val) (caught : Option Err) (i : Nat
       let d := s1.dc y
       match r with
       | .ok v => bodyA gen t (env ++ [v]) caught (i + 1) k (s1.emit (.run t (i + 1) d s1.mode (.ok v)))   -- `exception = None`; generator.send(send)
-      | .err e => bodyA gen t env (some e) (i + 1) h (s1.emit (.run t (i + 1) d s1.mode (.err e)))       -- `except Exception as exc: exception = exc`; generator.throw(exception)
+      | .err e =>
+        -- `except Exception as exc: exception = exc`; generator.throw(exception) - but an error that is not an `Exception`
+        -- is NOT caught there: it leaves `wrapped` (through `with AsyncioMode()`), the generator is abandoned and the body's
+        -- handler - even an `except BaseException` one - never sees it
+        if e.isBase then
+          let o := Out.err e
+          (o, s1.emit (.fin t o))
+        else bodyA gen t env (some e) (i + 1) h (s1.emit (.run t (i + 1) d s1.mode (.err e)))
       | .esc v => (.esc v, s1)         -- not an `Exception`: propagates out of the loop; the generator is abandoned
   | .sync c child k h, s =>
     -- AsyncDecorator.__call__ (allow_sync_call=False): refused while the flag is on
@@ -283,7 +330,11 @@ def bodyA (gen : Bool) (t : Nat) (env : List Val) (caught : Option Err) (i : Nat
     let s2 := s1.emit (.syncX t r)
     match r with
     | .ok v => bodyA gen t (env ++ [v]) caught i k s2
-    | .err e => bodyA gen t env (some e) i h s2
+    | .err e =>
+      if e.isBase then
+        let o := Out.err e
+        (o, s2.emit (.fin t o))
+      else bodyA gen t env (some e) i h s2
     | .esc v => (.esc v, s2)
 /-- `resolve_awaitables(x)` -/
 def resolveA : Ys → St → Out × St
@@ -507,8 +558,9 @@ def Prog.noRes : Prog → Bool
   | .ret _ => true
   | .res _ => false
   | .raise _ => true
+  | .raiseB _ => true
   | .reraise => true
-  | .yld y k h => Ys.noRes y && Prog.noRes k && Prog.noRes h
+  | .yld _ y k h => Ys.noRes y && Prog.noRes k && Prog.noRes h
   | .sync _ child k h => Prog.noRes child && Prog.noRes k && Prog.noRes h
 def Ys.noRes : Ys → Bool
   | .task _ p => Prog.noRes p
@@ -524,7 +576,7 @@ end
 mutual
 /-- no plain synchronous call anywhere -/
 def Prog.noSync : Prog → Bool
-  | .yld y k h => Ys.noSync y && Prog.noSync k && Prog.noSync h
+  | .yld _ y k h => Ys.noSync y && Prog.noSync k && Prog.noSync h
   | .sync _ _ _ _ => false
   | _ => true
 def Ys.noSync : Ys → Bool
@@ -537,5 +589,44 @@ def YsL.noSync : YsL → Bool
   | .nil => true
   | .cons y l => Ys.noSync y && YsL.noSync l
 end
+
+mutual
+/-- every handler of the program is `except Exception` (none catches BaseException) -/
+def Prog.excOnly : Prog → Bool
+  | .yld hb y k h => !hb && Ys.excOnly y && Prog.excOnly k && Prog.excOnly h
+  | .sync _ child k h => Prog.excOnly child && Prog.excOnly k && Prog.excOnly h
+  | _ => true
+def Ys.excOnly : Ys → Bool
+  | .task _ p => Prog.excOnly p
+  | .tup l => YsL.excOnly l
+  | .lst l => YsL.excOnly l
+  | .dict _ l => YsL.excOnly l
+  | _ => true
+def YsL.excOnly : YsL → Bool
+  | .nil => true
+  | .cons y l => Ys.excOnly y && YsL.excOnly l
+end
+
+mutual
+/-- no BaseException-only error is raised anywhere in the program -/
+def Prog.noRaiseB : Prog → Bool
+  | .raiseB _ => false
+  | .yld _ y k h => Ys.noRaiseB y && Prog.noRaiseB k && Prog.noRaiseB h
+  | .sync _ child k h => Prog.noRaiseB child && Prog.noRaiseB k && Prog.noRaiseB h
+  | _ => true
+def Ys.noRaiseB : Ys → Bool
+  | .task _ p => Prog.noRaiseB p
+  | .tup l => YsL.noRaiseB l
+  | .lst l => YsL.noRaiseB l
+  | .dict _ l => YsL.noRaiseB l
+  | _ => true
+def YsL.noRaiseB : YsL → Bool
+  | .nil => true
+  | .cons y l => Ys.noRaiseB y && YsL.noRaiseB l
+end
+
+/-- the side condition of the `_partial` theorems: no handler of the program catches BaseException, or the program
+    raises no BaseException-only error -/
+def Prog.safe (p : Prog) : Bool := p.excOnly || p.noRaiseB
 
 end AsynqModel.Asyncio
